@@ -4,6 +4,7 @@ import Mathlib.LinearAlgebra.Matrix.Block
 import FastorModel.Proofs.QRInv
 import FastorModel.Proofs.QRPivot
 import FastorModel.Proofs.QRFamily
+import FastorModel.Proofs.QRRecon
 import Mathlib.Tactic.NormNum
 /-
   C13 — QR by modified Gram–Schmidt (unary_qr_op.h, unary_piv_op.h).
@@ -43,6 +44,17 @@ theorem qr_reconstructs (sqrt : K → K) (M N : Nat) (A0 Qin : Mat K) (hs : Sqrt
     (k j : Nat) (hk : k < M) (hj : j < N) :
     ∑ p ∈ range N, (qrMgsr sqrt M N A0 Qin).Q k p * (qrMgsr sqrt M N A0 Qin).R p j = A0 k j := by
   have h := (inv_stateAt sqrt M N A0 Qin N (Nat.le_refl N) (fun t ht => hs t ht)).recon k j hk hj
+  rw [if_neg (by omega), add_zero] at h
+  exact h.symm
+
+/-- **Q·R = A needs only non-zero roots**: whatever `sqrt` returns — an inexact root, a rounded one, the floor of
+    a root — as long as it is not zero, the factors reproduce the input exactly (the division of step 2 is undone by
+    the multiplication with `R(i,i)`, and steps 3 and 4 cancel whatever `R(i,j)` is).  Exact roots are needed for
+    orthogonality only.  (The exact-rational runs on arbitrary inputs check this on the real code.) -/
+theorem qr_reconstructs_of_ne_zero (sqrt : K → K) (M N : Nat) (A0 Qin : Mat K)
+    (hne : ∀ i, i < N → sqrt (normArg sqrt M N A0 Qin i) ≠ 0) (k j : Nat) (hk : k < M) (hj : j < N) :
+    ∑ p ∈ range N, (qrMgsr sqrt M N A0 Qin).Q k p * (qrMgsr sqrt M N A0 Qin).R p j = A0 k j := by
+  have h := recon_stateAt sqrt M N A0 Qin N (Nat.le_refl N) hne k j hk hj
   rw [if_neg (by omega), add_zero] at h
   exact h.symm
 
